@@ -45,6 +45,14 @@ Setup ==
             [op |-> "SetDefault", h |-> "b1", u |-> A],
             [op |-> "SetDefault", h |-> "d2", u |-> AB],
             [op |-> "NewBundle", id |-> [p |-> "ex", ns |-> A, l |-> <<"b1">>], out |-> "sb"] >>
+    [] Scenario = "c09b" ->      \* d1 and d2 each hold a bundle A/b1; the two bundles share an equal record
+         SetupWorld \o
+         << [op |-> "Bundle", h |-> "d2", id |-> NameQN("ex", A, <<"b1">>), out |-> "b2"],
+            NR("b1", "entity", <<NameQN("ex", A, X)>>, <<>>,
+               << <<NameQN("ex", A, <<"attr">>), [t |-> "int", v |-> "1"]>> >>),
+            NR("b2", "entity", <<NameQN("ex", A, X)>>, <<>>,
+               << <<NameQN("ex", A, <<"attr">>), [t |-> "int", v |-> "1"]>> >>),
+            NR("b2", "entity", <<NameQN("ex", A, Y)>>, <<>>, <<>>) >>
     [] Scenario \in {"c08", "c08b"} -> SetupWorld
     [] Scenario = "c08d" ->      \* a second bundle: bundles whose unified contents coincide stay distinct
          SetupWorld \o << [op |-> "Bundle", h |-> "d1", id |-> NameQN("ex", A, <<"b2">>), out |-> "b2"] >>
@@ -119,6 +127,11 @@ RecMenu ==
          \cup
          { [k |-> "generation", id |-> <<>>,
             formals |-> << <<"entity", Ref(NamePL("ex", X))>> >>, extras |-> <<>>] }
+    [] Scenario = "c09b" ->
+         { [k |-> "entity", id |-> <<NameQN("ex", A, X)>>, formals |-> <<>>, extras |-> e]
+             : e \in { <<>>, << <<NameQN("ex", A, <<"attr">>), [t |-> "int", v |-> "1"]>> >> } }
+         \cup { [k |-> "generation", id |-> <<>>,
+                 formals |-> << <<"entity", Ref(NameQN("ex", A, X))>> >>, extras |-> <<>>] }
     [] Scenario = "c08d" ->
          { [k |-> "entity", id |-> <<NamePL("ex", X)>>, formals |-> <<>>, extras |-> e]
              : e \in { <<>>, << <<NameQN("ex", A, <<"attr">>), [t |-> "int", v |-> "1"]>> >> } }
@@ -149,6 +162,7 @@ Targets ==
     [] Scenario = "c08b" -> {"b1"}
     [] Scenario = "c08c" -> {"b1"}
     [] Scenario = "c08d" -> {"b1", "b2"}
+    [] Scenario = "c09b" -> {"b1", "b2", "d1"}
     [] OTHER -> Live
 
 ActsNewRec == { NR(h, t.k, t.id, t.formals, t.extras) : h \in Targets \cap Live, t \in RecMenu }
@@ -191,6 +205,7 @@ Menu ==
     [] Scenario = "c04b" -> ActsEdit04 \cup (IF Compared THEN {} ELSE ActsCompare)
     [] Scenario = "c18" -> ActsNewRec \cup ActsAddRecord \cup ActsUpdate \cup ActsAddBundle
                            \cup ActsDerive \cup ActsGet
+    [] Scenario = "c09b" -> ActsNewRec \cup ActsUpdate \cup {a \in ActsDerive : a.op = "Flattened"}
     [] Scenario = "c09" -> ActsNewRec \cup ActsUpdate \cup ActsAddBundle \cup ActsBundle
                            \cup {a \in ActsDerive : a.op = "Flattened"}
     [] Scenario \in {"c08", "c08b", "c08c", "c08d"} -> ActsNewRec \cup {a \in ActsDerive : a.op = "Unified"}
